@@ -46,6 +46,8 @@ def locate_one(values, val, issorted=False, tol=None, side='left'):
 
     if tol is not None:
         try:
+            if values.dtype.kind == 'u':
+                values = values.astype(float) # unsigned differences wrap around
             dist = np.abs(values - val)
             match = np.argmin(dist)
         except TypeError as error:
